@@ -82,7 +82,49 @@ def rule_m5(repo):
     return res
 
 
+NORMALISERS = {'subst_norm', 'beta_norm', 'beta_norm_conv'}
+
+
+def _norm_guards(func):
+    """{(test text, polarity)} that every path to a beta-normalising call must pass, or None if the
+    function never normalises.  Only `if` tests count (asserts guard everything that follows)."""
+    from ..cfg import cfg_of
+    cfg = cfg_of(func.node)
+    nodes = [n for n in cfg.nodes if n.kind in ('stmt', 'test') and any(
+        isinstance(c, ast.Call) and call_attr(c) in NORMALISERS for h in cfg.headers(n) for c in ast.walk(h))]
+    if not nodes:
+        return None
+    sigs = []
+    for n in nodes:
+        sig = set()
+        for t in cfg.test_nodes():
+            if not isinstance(t.stmt, ast.If) or t is n:
+                continue
+            for label in ('true', 'false'):
+                if cfg.path_avoiding(n, skip_edges={(t.id, label)}) is None and cfg.path_avoiding(n, skip_nodes=[t]) is None:
+                    sig.add((src(t.ast, 200), label == 'true'))    # without this edge the call is unreachable: it must be taken
+        sigs.append(frozenset(sig))
+    return set(sigs)
+
+
+def rule_m6(repo):
+    res = RuleResult('C04.M6', 'where evaluation and expansion of a macro both beta-normalise, they do so under the same condition', floor=1)
+    for mi in macro_index(repo):
+        if mi.eval is None or mi.gpt is None or mi.eval.cls is not mi.gpt.cls:
+            continue
+        ge, gp = _norm_guards(mi.eval), _norm_guards(mi.gpt)
+        if ge is None or gp is None:
+            continue
+        ok = ge == gp
+        fmt = lambda s: ' | '.join(sorted(' & '.join(('' if pol else 'not ') + '(%s)' % t for t, pol in sorted(x)) or 'always' for x in s))
+        res.add('%s :: eval-vs-expansion :: normalisation-guard' % mi.key, ok,
+                'both normalise when: %s' % fmt(ge) if ok else
+                'evaluation beta-normalises when [%s] but the expansion when [%s]: on other inputs they state different '
+                '(beta-equivalent, not equal) conclusions and the checker rejects the expansion' % (fmt(ge), fmt(gp)), mi.eval.loc)
+    return res
+
+
 def rules(repo):
     m1 = mr.hyps_rule(repo, 'C04.M1', mr.all_macros, floor=95)
     m2 = mr.zip_rule(repo, 'C04.M2', mr.macro_eval_functions(repo), floor=4)
-    return [m1, m2, rule_m3(repo), rule_m5(repo)]
+    return [m1, m2, rule_m3(repo), rule_m5(repo), rule_m6(repo)]
